@@ -355,6 +355,8 @@ def no_use_before_assignment(ctx, model, prop, rule, prefixes, exact_modules=Fal
             self.fi = fi
             self.locals = set()
             self.bad = []
+            self.undefined = []
+            self.known_globals = set()
 
         def targets(self, t):
             if isinstance(t, _ast.Name):
@@ -379,6 +381,9 @@ def no_use_before_assignment(ctx, model, prop, rule, prefixes, exact_modules=Fal
                     continue
                 if isinstance(x, _ast.Name) and isinstance(x.ctx, _ast.Load) and x.id in self.locals and x.id not in maybe:
                     self.bad.append(x)
+                elif isinstance(x, _ast.Name) and isinstance(x.ctx, _ast.Load) and x.id not in self.locals and x.id not in maybe \
+                        and x.id not in self.known_globals:
+                    self.undefined.append(x)      # neither local, parameter, enclosing / module-level name nor builtin: NameError
                 stack.extend(_ast.iter_child_nodes(x))
 
         def block(self, stmts, maybe):
@@ -475,7 +480,33 @@ def no_use_before_assignment(ctx, model, prop, rule, prefixes, exact_modules=Fal
                     collect(ch)
             collect(fnode)
             fl.locals = stored - declared - params
+            import builtins as _bi
+            mod_names = set(m.imports) | set(m.functions) | set(m.classes) | set(m.assigns) | set(dir(_bi)) | {"__file__", "__name__", "__doc__", "__class__"}
+            for st_ in _ast.walk(m.tree):     # any name bound anywhere at module / class level or in an enclosing function (closures)
+                if isinstance(st_, _ast.Name) and isinstance(st_.ctx, _ast.Store):
+                    mod_names.add(st_.id)
+                elif isinstance(st_, (_ast.FunctionDef, _ast.AsyncFunctionDef, _ast.ClassDef)):
+                    mod_names.add(st_.name)
+                    if not isinstance(st_, _ast.ClassDef):
+                        a2 = st_.args
+                        mod_names.update(a_.arg for a_ in a2.posonlyargs + a2.args + a2.kwonlyargs)
+                        if a2.vararg:
+                            mod_names.add(a2.vararg.arg)
+                        if a2.kwarg:
+                            mod_names.add(a2.kwarg.arg)
+                elif isinstance(st_, (_ast.Import, _ast.ImportFrom)):
+                    mod_names.update((a_.asname or a_.name).split(".")[0] for a_ in st_.names)
+                elif isinstance(st_, _ast.ExceptHandler) and st_.name:
+                    mod_names.add(st_.name)
+            star = any(isinstance(st_, _ast.ImportFrom) and any(a_.name == "*" for a_ in st_.names) for st_ in _ast.walk(m.tree))
+            fl.known_globals = mod_names if not star else None
+            if star:
+                fl.known_globals = type("Everything", (), {"__contains__": lambda self_, k_: True})()
             fl.block(fnode.body, set(params))
+            for x in fl.undefined[:3]:
+                ctx.ob(False, Finding(f"{prop}.{rule}", fi.where, f"{fi.short}|undefined-name:{x.id}",
+                                      f"line {x.lineno}: `{x.id}` is read in {fi.short} but is bound nowhere (not a local, a parameter, a module-level "
+                                      "name or a builtin): the call raises NameError for every input that reaches this line"))
             for x in fl.bad[:3]:
                 ctx.ob(False, Finding(f"{prop}.{rule}", fi.where, f"{fi.short}|unbound-local:{x.id}",
                                       f"line {x.lineno}: `{x.id}` is read in {fi.short} before any statement that could have assigned it: "
